@@ -45,6 +45,8 @@ type Frame struct {
 	defers  []*ssa.Defer
 	recvd   bool
 	private    []privCell
+	loopIdx    *ssa.Phi
+	loopPhis   []*ssa.Phi
 	loopHead   map[int]*loopCtx
 	paramEntry map[string]Term
 	named      map[string]Term
@@ -670,6 +672,14 @@ func (g *Gen) loopHeader(f *Frame, ci *cfgInfo, b *ssa.BasicBlock, preds []*ssa.
 		}
 		entryVals[phi] = t
 	}
+	f.loopIdx = nil
+	f.loopPhis = phis
+	for _, phi := range phis {
+		if phi.Comment == "rangeindex" {
+			f.loopIdx = phi
+		}
+	}
+	defer func() { f.loopIdx = nil; f.loopPhis = nil }()
 	// automatic invariant of "for i := range slice" loops (SSA rangeindex pattern): -1 <= idx < n
 	type autoInv struct {
 		phi *ssa.Phi
@@ -865,6 +875,13 @@ func (g *Gen) backEdge(f *Frame, from, hdr *ssa.BasicBlock, en string) {
 	if lc.spec == nil {
 		return
 	}
+	f.loopPhis = lc.phis
+	for _, phi := range lc.phis {
+		if phi.Comment == "rangeindex" {
+			f.loopIdx = phi
+		}
+	}
+	defer func() { f.loopIdx = nil; f.loopPhis = nil }()
 	// evaluate invariant with phis := back-edge values in current state
 	saved := map[*ssa.Phi]Term{}
 	for _, phi := range lc.phis {
